@@ -77,6 +77,7 @@ class Fn:
         self.calls = cfg.get('calls', {})           # extra callee name -> lean name
         self.param_kinds = cfg.get('params', {})
         self.fresh = 0
+        self.extra_params = []
 
     # ---------- expressions ----------
     def lit_float(self, v):
@@ -327,6 +328,10 @@ class Fn:
         if base is not None and base.get('kind') != 'CXXThisExpr':
             # method on an object: x.real(), x.imag(), v.size() ...
             o, ok = self.expr(base, env)
+            mv = self.cfg.get('methods', {}).get((o, nm))
+            if mv is not None and not args:
+                if mv not in self.extra_params: self.extra_params.append(mv)
+                return mv[0], mv[1]
             if nm == 'real' and ok == 'cplx': return f'{self.atom(o)}.1', 'sc'
             if nm == 'imag' and ok == 'cplx': return f'{self.atom(o)}.2', 'sc'
             if nm in ('epsilon',) : return 'Sc.eps', 'sc'
@@ -747,7 +752,7 @@ class Fn:
                 if self.cfg.get('member_order') is not None and m not in self.cfg.get('member_order', []):
                     raise XlateError(f'member {m} used but not in declared order')
                 mparams.append((m, self.members[m]))
-        allp = [p for p in mparams if p[0] not in self.cfg.get('write_only', [])] + plist
+        allp = [p for p in mparams if p[0] not in self.cfg.get('write_only', []) and p[1] != 'other'] + plist + list(self.extra_params)
         allp = [p for p in allp if not (p[0] in self.cfg.get('ctor_inits', {}) and p[0] not in self.cfg.get('ctor_init_params', {}).values())]
         def ty(k):
             return {'int': 'Int', 'u64': 'Int', 'u32': 'Int', 'bool': 'Bool', 'sc': 'α', 'enum': 'Int', 'cplx': '(α × α)',
